@@ -58,6 +58,7 @@ int g_next;
 bool g_capture;                               // true only around calls into the code under test
 int g_foreign_free, g_double_free, g_exhausted;
 unsigned char g_fill = 0xA5;                  // what fresh arena memory contains
+bool g_fail_realloc = false;                  // the platform realloc seam answers NULL (and leaves the old block alone)
 bool g_poison_returned = true;                // returned blocks become inaccessible (use after return aborts)
 
 // the block whose hand-back is being watched
@@ -100,6 +101,7 @@ void arena_free(void* mem) {
 void* arena_realloc(void* mem, size_t size) {
     if (mem && !in_arena(mem)) return ::realloc(mem, size);
     if (!mem && !g_capture) return ::realloc(nullptr, size);
+    if (g_fail_realloc) return nullptr;
     char* n = arena_take(size);
     if (!n) return nullptr;
     if (mem) {
@@ -115,7 +117,7 @@ void* arena_realloc(void* mem, size_t size) {
 void arena_reset() {
     for (int i = 0; i < g_next; i++) { ASAN_POISON_MEMORY_REGION(g_base + (size_t)i * STRIDE, STRIDE); g_slot[i].state = 0; }
     g_next = 0; g_foreign_free = g_double_free = g_exhausted = 0;
-    g_watch = Watch(); g_fill = 0xA5; g_poison_returned = true;
+    g_watch = Watch(); g_fill = 0xA5; g_poison_returned = true; g_fail_realloc = false;
 }
 void arena_init() {
     size_t b = (size_t)g_raw; b = (b + 63) & ~(size_t)63; while (b % 73) b += 64;
@@ -291,6 +293,23 @@ struct Env {
         }
         return r;
     }
+    // cpputest_realloc of addr that cannot succeed: variant 0 - the platform realloc answers NULL; variant 1 - the requested
+    // size plus the accounting information does not fit into a size_t. Reference: judged like a release through the
+    // malloc family, but nothing is released and nothing changes.
+    void* realloc_failing(void* addr, int variant, size_t cursize) {
+        if (!route_only) setcur(MAL, defalloc(MAL));
+        rep.reset();
+        det->outputBuffer_.clear();
+        void* r;
+        vf::ctx(variant ? "realloc(size_t(-5))" : "realloc(platform-fails)");
+        {
+            Window win;
+            g_fail_realloc = variant == 0;
+            r = cpputest_realloc_location(addr, variant ? (size_t)-5 : cursize + 3, "free.c", 24);
+            g_fail_realloc = false;
+        }
+        return r;
+    }
     void watch(const Blk& b) {
         g_watch = Watch(); g_watch.p = b.p; g_watch.size = b.size; g_watch.armed = true;
         for (size_t i = 0; i < b.size && i < sizeof g_user; i++) g_user[i] = (uchar)b.p[i];
@@ -426,7 +445,7 @@ std::string achan_str(const AChan& a) { return std::string(a.via_realloc ? "real
 std::string rchan_str(const RChan& c) { return c.kind == K_MLA ? std::string("leak-allocator(") + REL_NAME[c.fam] + ").free_memory" : std::string(c.kind == K_REALLOC ? "realloc" : REL_NAME[c.fam]) + WRAP_NAME[c.wrap]; }
 void pair_case(long idx) {
     vf::Radix r(idx);
-    int gs = PAIR_GUARD[r.take((long)PAIR_GUARD.size())], T = (int)r.take(2), ts = (int)r.take(2); RChan rc = RCH[r.take((long)RCH.size())]; AChan ac = ACH[r.take((long)ACH.size())]; size_t size = PAIR_SIZES[r.take((long)PAIR_SIZES.size())];
+    int gs = PAIR_GUARD[r.take((long)PAIR_GUARD.size())], T = (int)r.take(2), ts = (int)r.take(2), fre = (int)r.take(3); RChan rc = RCH[r.take((long)RCH.size())]; AChan ac = ACH[r.take((long)ACH.size())]; size_t size = PAIR_SIZES[r.take((long)PAIR_SIZES.size())];
     Env env(T != 0, ts != 0);
     // The string cache prints a buffer it does not know with "%s" in its one-time warning (by design, see C18). Under a
     // detector every release reaches it with the user size instead of the allocated size, so the warning always fires;
@@ -440,7 +459,22 @@ void pair_case(long idx) {
     if (gs) b.p[size + gpos] = (char)(gval == 0 ? b.g0[gpos] + 1 : gval == 1 ? 0x00 : 0xff);
     bool changed = guard_changed(b);
     bool wrapped = ac.wrap != W_NONE || rc.wrap != W_NONE || rc.kind == K_MLA;
-    auto desc = [&]() { return vf::fmt("%zu byte block from %s released through %s, type checking %s, %s overloads, guard %s", size, achan_str(ac).c_str(), rchan_str(rc).c_str(), T ? "on" : "off", ts ? "thread-safe" : "default", gs ? vf::fmt("byte %d changed", gpos).c_str() : "intact"); };
+    auto desc = [&]() { return vf::fmt("%zu byte block from %s%s released through %s, type checking %s, %s overloads, guard %s", size, achan_str(ac).c_str(), fre == 0 ? "" : fre == 1 ? ", then a realloc that the platform fails," : ", then a realloc to size_t(-5),", rchan_str(rc).c_str(), T ? "on" : "off", ts ? "thread-safe" : "default", gs ? vf::fmt("byte %d changed", gpos).c_str() : "intact"); };
+    if (fre) {          // a reallocation that fails: a release through the malloc family as far as reports go, otherwise a no-op
+        void* q = env.realloc_failing(b.p, fre - 1, size);
+        Cat wantf = reference(true, false, ac.fam, MAL, T != 0, changed);
+        const char* saved_qual = env.qual; env.qual = "/failed";
+        bool reported = env.judge("realloc", false, wantf, desc);
+        if (q) vf::fail("realloc/failed/returned-a-block", desc() + ": the reallocation cannot succeed but did not return NULL");
+        env.qual = saved_qual;
+        if (reported || wantf != C_NONE || q) {
+            vf::outcome(vf::fmt("failed-realloc<-%s %s", ALLOC_NAME[ac.fam], CAT[wantf]));
+            vf::count("nontrivial"); vf::count("transitions", 2);
+            if (vf::want_sample()) vf::sample(desc());
+            return;
+        }
+        for (size_t i = 0; i < size; i++) if ((uchar)b.p[i] != pat(i)) { vf::fail("realloc/failed/user-bytes-changed", desc() + ": the failed reallocation modified the block"); break; }
+    }
     env.watch(b);
     env.release(rc.kind, rc.fam, rc.wrap, b.p, size + 2);
     Cat want = reference(true, false, ac.fam, rc.fam, T != 0, changed);
@@ -448,9 +482,9 @@ void pair_case(long idx) {
     env.judge(chan, wrapped, want, desc);
     const char* pv = rc.kind == K_GLOBAL ? env.poison_verdict(chan, wrapped, desc) : "n/a";
     env.anomalies();
-    vf::outcome(vf::fmt("%s<-%s %s %s%s", chan, ALLOC_NAME[ac.fam], CAT[want], pv, ts ? " ts" : ""));
-    if (want != C_NONE) vf::count("nontrivial");
-    vf::count("transitions", 2);
+    vf::outcome(vf::fmt("%s<-%s %s %s%s%s", chan, ALLOC_NAME[ac.fam], CAT[want], pv, ts ? " ts" : "", fre ? " after-failed-realloc" : ""));
+    if (want != C_NONE || fre) vf::count("nontrivial");
+    vf::count("transitions", fre ? 3 : 2);
     if (vf::want_sample()) vf::sample(desc());
 }
 
@@ -698,7 +732,7 @@ struct Routing {
         return f == NEW ? ga->getNewAllocator() : f == ARR ? ga->getNewArrayAllocator() : ga->getMallocAllocator();
     }
 };
-struct Pending { const char* sig; char detail[1700]; };
+struct Pending { char sig[96]; char detail[1700]; };
 void routing_case(vf::Chooser& ch, int depth_before, int depth_between, int depth_total) {
     ch.c.reserve(256); ch.n.reserve(256);
     int T = ch.choose(2), gs = ch.choose(2), form = ch.choose(NFORMS), rc = ch.choose(4);      // rc: delete, delete[], free, realloc
@@ -712,10 +746,10 @@ void routing_case(vf::Chooser& ch, int depth_before, int depth_between, int dept
     auto pending = [&](const char* sig, const char* what, const char* arg) {
         for (int i = 0; i < npend; i++) if (strcmp(pend[i].sig, sig) == 0) return;
         if (npend >= 3) return;
-        pend[npend].sig = sig; snprintf(pend[npend].detail, sizeof pend[npend].detail, "%s: ", trace);
+        snprintf(pend[npend].sig, sizeof pend[npend].sig, "%s", sig); snprintf(pend[npend].detail, sizeof pend[npend].detail, "%s: ", trace);
         size_t l = strlen(pend[npend].detail); snprintf(pend[npend].detail + l, sizeof pend[npend].detail - l, what, arg); npend++;
     };
-    int nops = 0; bool bad_slot = false;
+    int nops = 0; bool bad_slot = false, ended = false; Blk b = Blk(); Cat ended_want = C_NONE;
     auto check_state = [&]() {
         for (int f = 0; f < 3; f++) {
             TestMemoryAllocator* c = current(f);
@@ -724,14 +758,26 @@ void routing_case(vf::Chooser& ch, int depth_before, int depth_between, int dept
         }
         if (!MemoryLeakWarningPlugin::areNewDeleteOverloaded()) pending("routing/overloads-not-active", "areNewDeleteOverloaded() is false although the overloads were %s", "switched on");
     };
-    auto history = [&](int depth) {
+    auto history = [&](int depth, bool have_block) {
         int used = 0;
         for (int i = 0; i < depth; i++) {
-            int en[O_COUNT], n = 0;
+            int en[O_COUNT + 2], n = 0;
             for (int op = 0; op < O_COUNT; op++) if (ro.enabled(op)) en[n++] = op;
+            if (have_block) { en[n++] = O_COUNT; en[n++] = O_COUNT + 1; }      // a reallocation of the block that fails
             int c = ch.choose(n + 1);
             if (c == 0) break;
             int op = en[c - 1];
+            if (op >= O_COUNT) {
+                int v = op - O_COUNT;
+                say("%s; ", v ? "realloc(p, size_t(-5)) fails" : "realloc(p, 8) fails in the platform");
+                nops++; used++;
+                void* q = env.realloc_failing(b.p, v, b.size);
+                Cat wantf = reference(true, false, fa, MAL, T != 0, guard_changed(b)), got = classify(env.rep);
+                if (got != wantf) { char sg[96]; snprintf(sg, sizeof sg, "realloc/routed/failed/want-%s/got-%s", CAT[wantf], CAT[got]); pending(sg, "the failing reallocation was reported as '%s'", CAT[got]); }
+                if (q) pending("realloc/failed/returned-a-block", "the reallocation cannot succeed but did not return %s", "NULL");
+                if (got != C_NONE || wantf != C_NONE || q) { ended = true; ended_want = wantf; break; }
+                continue;
+            }
             vf::ctx(OP_NAME[op]);
             ro.apply(op);
             say("%s; ", OP_NAME[op]); nops++; used++;
@@ -744,15 +790,17 @@ void routing_case(vf::Chooser& ch, int depth_before, int depth_between, int dept
     // ---- the routing table is live from here; no harness heap allocation until it is switched off again
     g_window_inert = true; g_capture = true;
     MemoryLeakWarningPlugin::turnOnDefaultNotThreadSafeNewDeleteOverloads();
-    int used = history(depth_before);
-    Blk b = env.alloc_form(form, 5);
+    int used = history(depth_before, false);
+    b = env.alloc_form(form, 5);
     say("p = %s(5); ", FORM_NAME[form]);
     if (gs) { b.p[b.size + 1] = (char)(b.g0[1] ^ 0x10); say("p[6] overwritten; "); }
-    history(depth_total - used < depth_between ? depth_total - used : depth_between);
+    history(depth_total - used < depth_between ? depth_total - used : depth_between, true);
     bool changed = guard_changed(b);
-    say("%s(p)", chan_name(kind, fr));
-    env.watch(b);
-    env.release(kind, fr, W_NONE, b.p, 9);
+    if (!ended) {
+        say("%s(p)", chan_name(kind, fr));
+        env.watch(b);
+        env.release(kind, fr, W_NONE, b.p, 9);
+    }
     Reporter seen = env.rep;                       // what the judged release produced
     Watch w = g_watch; g_watch.armed = false;
     if (ro.ga) { ro.ga->~GlobalMemoryAccountant(); ro.ga = nullptr; }      // its allocators were obtained through the live table
@@ -762,6 +810,12 @@ void routing_case(vf::Chooser& ch, int depth_before, int depth_between, int dept
     env.rep = seen; g_watch = w;
     for (int i = 0; i < npend; i++) vf::fail(pend[i].sig, pend[i].detail);
     auto desc = [&]() { return std::string(trace) + vf::fmt(" (type checking %s)", T ? "on" : "off"); };
+    if (ended) {        // the history ended at a failing reallocation for which a report was due (or made)
+        vf::outcome(vf::fmt("failed-realloc<-%s %s", FORM_NAME[form], CAT[ended_want]));
+        vf::count("nontrivial"); vf::count("ops", nops + 1);
+        if (vf::want_sample()) vf::sample(desc());
+        return;
+    }
     Cat want = reference(true, false, fa, fr, T != 0, changed);
     env.judge(chan_name(kind, fr), false, want, desc);
     const char* pv = kind == K_GLOBAL ? env.poison_verdict(chan_name(kind, fr), false, desc) : "n/a";
@@ -835,16 +889,81 @@ void typeflag_case(vf::Chooser& ch, int depth_total) {
     if (vf::want_sample()) vf::sample(desc());
 }
 
+// ------------------------------------------------------------------ section failrealloc: reallocations that fail, both record layouts
+// Detector API as the overloads use it, so that every family can be combined with both layouts of the accounting record
+// (inside the block / separately allocated): allocMemory, k reallocMemory calls that cannot succeed (platform realloc
+// answers NULL, or size_t(-5)), then invalidateMemory+deallocMemory through one of the three families or a reallocMemory
+// that succeeds. Reference: a failing reallocation through the block's own family is reported as corruption iff the guard
+// is changed at that moment and otherwise changes nothing: the later release is judged exactly as without it.
+const size_t FR_SIZES[4] = {0, 1, 8, 17};
+void failrealloc_case(long idx) {
+    vf::Radix r(idx);
+    int gsel = (int)r.take(7), T = (int)r.take(2), rel = (int)r.take(4), k = 1 + (int)r.take(2), variant = (int)r.take(2), sep = (int)r.take(2), fam = (int)r.take(3); size_t size = FR_SIZES[r.take(4)];
+    Env env(T != 0);
+    TestMemoryAllocator* a = defalloc(fam);
+    char* p;
+    vf::ctx("allocMemory");
+    { Window win; p = env.det->allocMemory(a, size, "alloc.c", 12, sep != 0); }
+    if (!p) vf::harness_error("allocMemory returned NULL");
+    Blk b; b.p = p; b.size = size; b.fam = fam;
+    for (size_t i = 0; i < size; i++) p[i] = (char)pat(i);
+    memcpy(b.g0, p + size, 3);
+    int gpos = gsel ? (gsel - 1) % 3 : 0; bool before = gsel >= 1 && gsel <= 3, after = gsel >= 4;
+    if (before) p[size + gpos] = (char)(b.g0[gpos] ^ 0x40);
+    auto desc = [&]() { return vf::fmt("%zu byte %s block with %s accounting record, %d reallocation(s) that fail (%s), then %s; type checking %s, guard %s", size, ALLOC_NAME[fam], sep ? "a separately allocated" : "an in-block", k, variant ? "size_t(-5)" : "platform realloc answers NULL", rel == 3 ? "a reallocation that succeeds" : REL_NAME[rel], T ? "on" : "off", gsel == 0 ? "intact" : vf::fmt("byte %d changed %s the failing reallocation", gpos, before ? "before" : "after").c_str()); };
+    for (int i = 0; i < k; i++) {
+        bool changed = guard_changed(b);
+        env.rep.reset(); env.det->outputBuffer_.clear();
+        char* q;
+        vf::ctx(variant ? "reallocMemory(size_t(-5))" : "reallocMemory(platform-fails)");
+        { Window win; g_fail_realloc = variant == 0; q = env.det->reallocMemory(a, p, variant ? (size_t)-5 : size + 3, "free.c", 24, sep != 0); g_fail_realloc = false; }
+        Cat wantf = changed ? C_CORRUPT : C_NONE;
+        env.qual = "/failed";
+        bool reported = env.judge("realloc", false, wantf, desc);
+        if (q) vf::fail("realloc/failed/returned-a-block", desc() + ": the reallocation cannot succeed but did not return NULL");
+        env.qual = nullptr;
+        if (reported || wantf != C_NONE || q) {
+            vf::outcome(vf::fmt("failed-realloc %s sep=%d %s", ALLOC_NAME[fam], sep, CAT[wantf]));
+            vf::count("nontrivial"); vf::count("transitions", 1 + i + 1);
+            if (vf::want_sample()) vf::sample(desc());
+            return;
+        }
+        for (size_t j = 0; j < size; j++) if ((uchar)p[j] != pat(j)) { vf::fail("realloc/failed/user-bytes-changed", desc() + ": the failed reallocation modified the block"); break; }
+        if (memcmp(p + size, b.g0, 3) != 0) vf::fail("realloc/failed/guard-bytes-changed", desc() + ": the failed reallocation modified the guard bytes");
+    }
+    if (after) p[size + gpos] = (char)(b.g0[gpos] ^ 0x40);
+    bool changed = guard_changed(b);
+    int fr = rel == 3 ? fam : rel;
+    const char* chan = rel == 3 ? "realloc" : REL_NAME[rel];
+    env.watch(b);
+    env.rep.reset(); env.det->outputBuffer_.clear();
+    vf::ctx(chan);
+    {
+        Window win;
+        if (rel == 3) env.det->reallocMemory(a, p, size + 2, "free.c", 23, sep != 0);
+        else { env.det->invalidateMemory(p); env.det->deallocMemory(defalloc(fr), p, "free.c", 22, sep != 0); }
+    }
+    Cat want = reference(true, false, fam, fr, T != 0, changed);
+    env.qual = "/after-failed-realloc";
+    env.judge(chan, false, want, desc);
+    const char* pv = rel == 3 ? "n/a" : env.poison_verdict(chan, false, desc);
+    env.anomalies();
+    vf::outcome(vf::fmt("%s<-%s sep=%d %s %s", chan, ALLOC_NAME[fam], sep, CAT[want], pv));
+    vf::count("nontrivial");
+    vf::count("transitions", 2 + k);
+    if (vf::want_sample()) vf::sample(desc());
+}
+
 // ------------------------------------------------------------------ section hist: histories up to the first report
 void hist_case(vf::Chooser& ch, int depth, int maxlive) {
     Env env(true);
     bool T = true;
     std::vector<Blk> live; Blk stale; bool has_stale = false;
-    std::string trace; int nalloc = 0; Cat last = C_NONE; bool stopped = false; int tampers = 0;
+    std::string trace; int nalloc = 0; Cat last = C_NONE; bool stopped = false; int tampers = 0, failed_reallocs = 0;
     auto name = [&](const Blk& b) { return vf::fmt("%s-block(%zu)", ALLOC_NAME[b.fam], b.size); };
     for (int step = 0; step < depth && !stopped; step++) {
         int n_alloc = (int)live.size() < maxlive ? 3 : 0;
-        int n_live = (int)live.size() * 5;
+        int n_live = (int)live.size() * 7;
         int n_stale = has_stale ? 2 : 0;
         int op = ch.choose(n_alloc + n_live + n_stale + 1);
         if (op < n_alloc) {
@@ -852,9 +971,22 @@ void hist_case(vf::Chooser& ch, int depth, int maxlive) {
             live.push_back(b);
             trace += vf::fmt("%s(%zu) ", ALLOC_NAME[op], b.size);
         } else if (op < n_alloc + n_live) {
-            int k = (op - n_alloc) / 5, a = (op - n_alloc) % 5;
+            int k = (op - n_alloc) / 7, a = (op - n_alloc) % 7;
             Blk b = live[k];
-            if (a == 4) {           // flip one guard byte (flipping it again restores it)
+            if (a >= 5) {       // a reallocation that fails (platform answers NULL / size does not fit): judged like a release through the
+                                // malloc family; if no report is due nothing has happened
+                bool changed = guard_changed(b);
+                trace += vf::fmt("%s:%s ", a == 5 ? "realloc-platform-fails" : "realloc-size_t(-5)", name(b).c_str());
+                void* q = env.realloc_failing(b.p, a - 5, b.size);
+                Cat want = reference(true, false, b.fam, MAL, T, changed);
+                auto desc = [&]() { return trace + vf::fmt("(type checking %s, guard %s)", T ? "on" : "off", changed ? "changed" : "intact"); };
+                env.qual = "/failed";
+                bool reported = env.judge("realloc", false, want, desc);
+                if (q) vf::fail("realloc/failed/returned-a-block", desc() + ": the reallocation cannot succeed but did not return NULL");
+                env.qual = nullptr;
+                if (reported || want != C_NONE || q) { last = want; stopped = true; break; }
+                failed_reallocs++;
+            } else if (a == 4) {           // flip one guard byte (flipping it again restores it)
                 b.p[b.size + b.size % 3] ^= 0x20; tampers++;
                 trace += "tamper-guard:" + name(b) + " ";
             } else {
@@ -908,7 +1040,7 @@ void hist_case(vf::Chooser& ch, int depth, int maxlive) {
         vf::count("ops");
     }
     env.anomalies();
-    vf::outcome(vf::fmt("end=%s left=%zu tc=%d tampers=%d", CAT[last], left, T, tampers > 2 ? 2 : tampers));
+    vf::outcome(vf::fmt("end=%s left=%zu tc=%d tampers=%d failed-reallocs=%d", CAT[last], left, T, tampers > 2 ? 2 : tampers, failed_reallocs > 2 ? 2 : failed_reallocs));
     if (last != C_NONE) vf::count("nontrivial");
     if (vf::want_sample()) vf::sample(trace);
 }
@@ -964,8 +1096,8 @@ int main(int argc, char** argv) {
 
     if (!TH) { PAIR_SIZES = {0, 1, 7, 8, 9, 16, 17}; PAIR_GUARD = {0, 1, 4, 7}; }
     else { for (size_t s = 0; s <= 17; s++) PAIR_SIZES.push_back(s); PAIR_SIZES.push_back(4096); for (int g = 0; g < 10; g++) PAIR_GUARD.push_back(g); }
-    vf::info("pairs.bound", std::string("13 allocating channels (new, new[], malloc each plain / under an AccountingTestMemoryAllocator / under a SimpleStringCacheAllocator as current allocator / through a MemoryLeakAllocator; realloc(NULL)) x 15 releasing channels (delete, delete[], free each plain / accounting / string cache; MemoryLeakAllocator::free_memory x 3 families; realloc plain / accounting / string cache) x type checking on/off x {default, thread-safe} global overloads x ") + (TH ? "guard {intact, byte 0/1/2 set to +1/0x00/0xff} x sizes {0..17,4096}" : "guard {intact, byte 0, 1, 2 changed} x sizes {0,1,7,8,9,16,17}"));
-    vf::section_index("pairs", (long)PAIR_SIZES.size() * (long)ACH.size() * (long)RCH.size() * 2 * 2 * (long)PAIR_GUARD.size(), pair_case);
+    vf::info("pairs.bound", std::string("13 allocating channels (new, new[], malloc each plain / under an AccountingTestMemoryAllocator / under a SimpleStringCacheAllocator as current allocator / through a MemoryLeakAllocator; realloc(NULL)) x 15 releasing channels (delete, delete[], free each plain / accounting / string cache; MemoryLeakAllocator::free_memory x 3 families; realloc plain / accounting / string cache) x type checking on/off x {default, thread-safe} global overloads x {nothing, a cpputest_realloc that the platform fails, a cpputest_realloc to size_t(-5)} between allocation and release x ") + (TH ? "guard {intact, byte 0/1/2 set to +1/0x00/0xff} x sizes {0..17,4096}" : "guard {intact, byte 0, 1, 2 changed} x sizes {0,1,7,8,9,16,17}"));
+    vf::section_index("pairs", (long)PAIR_SIZES.size() * (long)ACH.size() * (long)RCH.size() * 2 * 2 * 3 * (long)PAIR_GUARD.size(), pair_case);
     vf::require_outcomes("pairs", 40);
 
     for (int f = 0; f < 3; f++) {
@@ -978,17 +1110,21 @@ int main(int argc, char** argv) {
     vf::section_index("pairs2", (long)P2_SIZES.size() * (long)STACKS.size() * ((long)STACKS.size() + (long)STACKS.size() / 3) * 2 * 4, pair2_case);
     vf::require_outcomes("pairs2", 40);
 
+    vf::info("failrealloc.bound", "family {new, new[], malloc} x accounting record {in the block, separately allocated} (detector API, as the overloads call it) x sizes {0,1,8,17} x 1 or 2 reallocations that cannot succeed {platform realloc answers NULL, size_t(-5)} through the block's own family x guard {intact, byte 0/1/2 changed before the failing reallocation, byte 0/1/2 changed after it} x type checking on/off x release through {delete, delete[], free (invalidateMemory+deallocMemory), a reallocation that succeeds}");
+    vf::section_index("failrealloc", 7L * 2 * 4 * 2 * 2 * 2 * 3 * 4, failrealloc_case);
+    vf::require_outcomes("failrealloc", 20);
+
     vf::info("addresses.bound", std::string("bystander block of family {new,new[],malloc} and size {0,1,2,8,17") + (TH ? ",100,4096" : "") + "} x address {NULL, released before, stack, static, never handed out, block of another detector, untracked heap block, p-16..p-1, p+1..p+size+16} x releasing channel {delete, delete[], free, realloc, MemoryLeakAllocator::free_memory x 3} x type checking on/off; afterwards the bystander is released through its own family");
     vf::section_index("addresses", (long)ADDRS.size() * 3 * 7 * 2, addr_case);
     vf::require_outcomes("addresses", 20);
 
-    int depth = TH ? 8 : 6, maxlive = TH ? 4 : 3;
-    vf::info("hist.bound", vf::fmt("every history of <= %d operations over {new, new[], malloc (<= %d outstanding, distinct sizes); per outstanding block: delete, delete[], free, realloc, flip one guard byte; per most recently released block: release again through its own and through another family; toggle type checking}, ended by the first due report; all blocks in one hash bucket; remaining blocks released through their own family at the end", depth, maxlive));
+    int depth = TH ? 7 : 6, maxlive = TH ? 4 : 3;
+    vf::info("hist.bound", vf::fmt("every history of <= %d operations over {new, new[], malloc (<= %d outstanding, distinct sizes); per outstanding block: delete, delete[], free, realloc, a realloc the platform fails, a realloc to size_t(-5), flip one guard byte; per most recently released block: release again through its own and through another family; toggle type checking}, ended by the first due report; all blocks in one hash bucket; remaining blocks released through their own family at the end", depth, maxlive));
     vf::section_dfs("hist", 3, false, [&](vf::Chooser& ch) { hist_case(ch, depth, maxlive); });
     vf::require_outcomes("hist", 20);
 
     int rb = 2, rbt = 2, rtot = TH ? 4 : 3;
-    vf::info("routing.bound", vf::fmt("8 allocating forms of the routing table (new, new[], new(nothrow), new[](nothrow), new(size,file,line), new[](size,file,line), malloc, realloc(NULL)) x 4 releasing entry points (delete, delete[], free, realloc) through the global routing only x type checking on/off x guard {intact, one byte changed} x every history of <= %d manipulations before the allocation x every history of <= %d between allocation and release (together <= %d), over {GlobalMemoryAllocatorStash save, restore; setCurrent{New,NewArray,Malloc}Allocator(custom allocator of that family); setCurrent{New,NewArray,Malloc}AllocatorToDefault; GlobalMemoryAccountant start, stop (only where the documented usage allows them); saveAndDisableNewDeleteOverloads+restoreNewDeleteOverloads; turnOffNewDeleteOverloads+turnOnDefaultNotThreadSafeNewDeleteOverloads; turnOnThreadSafeNewDeleteOverloads}; the overload table is switched on once per case and afterwards touched by these manipulations only; after every manipulation the three current allocators are compared with a slot model", rb, rbt, rtot));
+    vf::info("routing.bound", vf::fmt("8 allocating forms of the routing table (new, new[], new(nothrow), new[](nothrow), new(size,file,line), new[](size,file,line), malloc, realloc(NULL)) x 4 releasing entry points (delete, delete[], free, realloc) through the global routing only x type checking on/off x guard {intact, one byte changed} x every history of <= %d manipulations before the allocation x every history of <= %d between allocation and release (together <= %d), over {GlobalMemoryAllocatorStash save, restore; setCurrent{New,NewArray,Malloc}Allocator(custom allocator of that family); setCurrent{New,NewArray,Malloc}AllocatorToDefault; GlobalMemoryAccountant start, stop (only where the documented usage allows them); saveAndDisableNewDeleteOverloads+restoreNewDeleteOverloads; turnOffNewDeleteOverloads+turnOnDefaultNotThreadSafeNewDeleteOverloads; turnOnThreadSafeNewDeleteOverloads; between allocation and release also: a cpputest_realloc of the block that the platform fails, a cpputest_realloc to size_t(-5)}; the overload table is switched on once per case and afterwards touched by these manipulations only; after every manipulation the three current allocators are compared with a slot model", rb, rbt, rtot));
     vf::section_dfs("routing", 4, false, [&](vf::Chooser& ch) { routing_case(ch, rb, rbt, rtot); });
     vf::require_outcomes("routing", 40);
 
